@@ -25,7 +25,7 @@ for name in sorted(os.listdir(os.path.join(ROOT, "seeded"))):
         env = {"VERIF_SKIP_COQ": "1"} if os.environ.get("VERIF_SKIP_COQ") else {}
         rc, out = sh("./check %s --tier quick" % prop, cwd=ROOT, env=env)
     finally:
-        sh("git -C /repo checkout -- .")
+        sh("git -C /repo checkout -- . && git -C /repo clean -fdq")
     viol = [l for l in out.split("\n") if l.startswith("VIOLATION")]
     summ = [l for l in out.split("\n") if re.match(r"C\d+ quick", l)]
     res[name] = {"exit": rc, "violation": viol[:1], "summary": summ[:1],
